@@ -33,7 +33,7 @@ ASSUMPTIONS = [
     "over {A,K,P,M} the patterns [KR] and K have the same sites; K is therefore explored one length less than [KR]",
 ]
 
-PATTERNS = {"[KR]": "AKPM", "[KR](?!P)": "AKPM", "K": "AKPM", "(?=D)": "ADM"}
+PATTERNS = {"[KR]": "AKPM", "[KR](?!P)": "AKPM", "K": "AKPM", "(?=D)": "ADM", "(?=M)": "AMK"}
 MC = (0, 1, 2, 3)
 BUCKETS = (1 << 20) - 1
 SELFCHECK_LEN = 4
@@ -211,13 +211,15 @@ def run(ctx):
         elif n <= deep:
             items += _items(n, ("[KR](?!P)",), False)
         items += _items(n, ("(?=D)",), False)
+        if n <= deep_ad - 2:  # zero-width match at position 0 of a sequence starting with M (N-terminal clipping)
+            items += _items(n, ("(?=M)",), False)
         if n <= comp:
             items += _items(n, akpm, True) + _items(n, ("(?=D)",), True)
     ctx.pmap(worker, items, chunksize=1)
     ctx.exhaustive = True
     ctx.info["bound"] = {
         "max_len_AKPM_[KR]": full, "max_len_AKPM_K": full - 1, "max_len_AKPM_[KR](?!P)": deep,
-        "max_len_ADM_(?=D)": deep_ad,
+        "max_len_ADM_(?=D)": deep_ad, "max_len_AMK_(?=M)": deep_ad - 2,
         "max_len_compiled_regex": comp, "min_len": 0, "missed_cleavages": list(MC),
         "length_bounds": "every 1 <= min <= max <= len+1", "clip_x_semi": 4,
     }
